@@ -516,6 +516,16 @@ pub fn preprocess_str<T: AsRef<Path>, U: AsRef<Path>, V: BuildHasher>(
                 let range = Range::new(locate.offset, locate.offset + locate.len);
                 ret.push(locate.str(&s), Some((path.as_ref(), range)));
             }
+            NodeEvent::Enter(RefNode::Comment(x)) if strip_comments => {
+                // A comment separates tokens: leave a newline or a blank in its place.
+                let locate: Locate = x.try_into().unwrap();
+                let end = locate.offset + locate.len;
+                if locate.str(&s).ends_with('\n') {
+                    ret.push("\n", Some((path.as_ref(), Range::new(end - 1, end))));
+                } else {
+                    ret.push(" ", Some((path.as_ref(), Range::new(locate.offset, locate.offset + 1))));
+                }
+            }
             NodeEvent::Enter(RefNode::IfndefDirective(x)) => {
                 let (_, ref keyword, ref ifid, ref ifbody, ref elsif, ref elsebody, _, _) = x.nodes;
                 skip_nodes.push(keyword.into());
